@@ -41,7 +41,7 @@ def c01(tier, seed):
             jobs.append(job("HSqliTotal", [n], safety=True, witness_every=5))
         else:
             jobs += part_jobs("HSqliTotal", [n], SQL_PARTS, safety=True, witness_every=200 if n >= 3 else 20)
-    c.run_group("W", BASE + H("h_total.go"), jobs)
+    c.run_group("W-api", BASE + H("h_api.go"), jobs)
     jobs = []
     for f in range(5):
         jobs += wjobs("HLex", NU, extra=[f], split_from=4, safety=True)
@@ -52,7 +52,7 @@ def c01(tier, seed):
         for n in range(0, NT + 1):
             for pre in ((0,) if n == NT and tier == "quick" else (0, 1, 2, 3)):
                 jobs.append(job("HSqlOpener", [w, n, pre], safety=True, witness_every=50))
-    c.run_group("T-openers", BASE + H("h_total.go"), jobs, expect_labels=["done"])
+    c.run_group("T-openers-api", BASE + H("h_api.go"), jobs, expect_labels=["done"])
     return c.finish("model_checking", "every feasible path of IsSQLi over every byte string of length <= %d; first scan step in 5 modes for inputs <= %d; 15 kinds of long tokens (29-34 bytes) with a free byte before or after; 41 construct openers x 4 context prefixes + <= %d free bytes; each path's index/slice/nil/division/step-budget obligations decided by z3 or the byte-domain procedure" % (N, NU, NT),
                     {"W_free_bytes": N, "U_free_bytes": NU, "opener_tail_free_bytes": NT})
 
@@ -65,6 +65,7 @@ def c02(tier, seed):
         for n in range(0, N + 1):
             jobs.append(job("HXssCtxTotal", [n, ctx], safety=True, witness_every=20))
     c.run_group("W", BASE + H("h_total.go"), jobs)
+    c.run_group("W-api", BASE + H("h_api.go"), wjobs("HXssTotal", N - 1, partition=XSS_PARTS, split_from=4, safety=True))
     XU = BASE + H("h_xss_units.go")
     jobs = []
     for st in range(22):
@@ -83,6 +84,8 @@ def c02(tier, seed):
     def confirm_depth(v, nat_res, r):
         if "call depth" in v["msg"]:
             data = bytes(iv["val"] for iv in v["inputs"] if iv["name"].startswith("in0_"))
+            if sum(1 for p in pump_log if p["confirmed"]) >= 2 or len(pump_log) >= 5:
+                return None
             got, info = c.nat.pump(data)
             pump_log.append({"input": v["text"], "confirmed": got, "info": info})
             return got
@@ -121,6 +124,22 @@ def wjobs(entry, nmax, extra=(), partition=SQL_PARTS, split_from=3, **kw):
     return jobs
 
 
+def rel_jobs(tier, seed, entry_attack="HSqlAttackRel", entry_near="HSqlNearRel", qstep=24, **kw):
+    """template jobs shared by C08 / C12 (/ C06): a rotating slice of the attack grammar + all near-benign templates"""
+    allg, _ = sql_grammar_all()
+    step = qstep if tier == "quick" else max(2, qstep // 8)
+    sel = [d for i, d in enumerate(allg) if i % step == seed % step]
+    jobs = [job(entry_attack, list(d), safety=kw.get("safety", True), witness_every=6, max_witness=1) for d in sel]
+    for i in range(46):
+        for sep in ((0, 2) if tier == "quick" else (0, 1, 2, 3)):
+            jobs.append(job(entry_near, [i, sep], safety=kw.get("safety", True), witness_every=6, max_witness=1))
+    return jobs
+
+
+def sql_grammar_all():
+    return [(c, a, sp, t) for c in range(10) for a in range(52) for sp in range(4) for t in range(9)], None
+
+
 def c08(tier, seed):
     c = Check("C08", tier, seed)
     N = 3 if tier == "quick" else 4
@@ -129,6 +148,7 @@ def c08(tier, seed):
     for f in range(5):
         jobs += wjobs("HFpLen", N, extra=[f], safety=True)
     c.run_group("W-fp-len", SQLI, jobs, expect_labels=["checked"])
+    c.run_group("T-relations", SQLT, rel_jobs(tier, seed), expect_labels=["checked"])
     return c.finish("model_checking", "verdict/fingerprint relation of IsSQLi for all inputs <= %d bytes; per-context fingerprint length and alphabet for all inputs <= %d bytes in 5 modes" % (N, N), {"W_free_bytes": N})
 
 
@@ -141,6 +161,14 @@ def c12(tier, seed):
         for my in range(2):
             jobs += [j for j in wjobs("HVirtualQuote", N, extra=[q, my], safety=True) if j["args"][0] >= 1]  # the property is stated for s != ""
     c.run_group("W-virtual-quote", SQLI, jobs, expect_labels=["checked"])
+    c.run_group("T-relations", SQLT, rel_jobs(tier, seed), expect_labels=["checked"])
+    jobs = []
+    for i in range(46):
+        for sep in ((0,) if tier == "quick" else (0, 1, 2, 3)):
+            for q in range(2):
+                for my in range(2):
+                    jobs.append(job("HVirtualQuoteT", [i, sep, q, my], safety=True, witness_every=6, max_witness=1))
+    c.run_group("T-virtual-quote", SQLT, jobs, expect_labels=["checked"])
     return c.finish("model_checking", "IsSQLi vs the documented cascade evaluated on fresh state, and inside-quote vs quote+input as-is, for all inputs <= %d bytes" % N, {"W_free_bytes": N})
 
 
@@ -286,6 +314,7 @@ def c06(tier, seed):
         jobs += wjobs("HSpecFold", NW, extra=[f])
     c.run_group("W-stream-fold", SPECSQL, jobs, expect_labels=["checked"])
     c.run_group("W-api", SPECSQL, wjobs("HSpecIsSQLi", NW), expect_labels=["checked"])
+    c.run_group("T-templates", SPECSQL + H("h_sql_tpl.go", "h_spec_sqli_tpl.go"), rel_jobs(tier, seed, "HSpecSqlT", "HSpecSqlNearT", qstep=67, safety=False), expect_labels=["checked"])
     c.assumptions.append("text that reaches a Unicode case-folding call is ASCII (other paths are closed as excluded and counted)")
     return c.finish("model_checking", "implementation vs independently written reference (spec/sqltok.go, spec/sqlfold.go) on the same symbolic input: first token in 5 modes for all inputs <= %d bytes; token stream, folded tokens, fingerprint, context verdict in 5 modes and IsSQLi for all inputs <= %d bytes" % (NU, NW),
                     {"U_free_bytes": NU, "W_free_bytes": NW, "modes": 5})
@@ -328,6 +357,12 @@ def c19(tier, seed):
                 jobs.append(job("HUrl", [sch, 3, 0, 0, 0, 0, pos, 0], witness_every=3))
         for junk in (2, 3):
             jobs.append(job("HUrl", [sch, 0, 0, 0, 0, junk, -1, 2 if tier != "quick" else 1], witness_every=3))
+    for sch in range(4):
+        for kind in range(6):
+            for L in ((70,) if tier == "quick" else (40, 64, 70, 130)):
+                if kind == 2 and L != 70:
+                    continue
+                jobs.append(job("HUrlLong", [sch, kind, L], witness_every=3, max_witness=1))
     c.run_group("T-url", URL, jobs, expect_labels=["checked"])
     return c.finish("model_checking", "character-reference decoder vs reference decoder on every string <= %d bytes; scheme templates (4 schemes x encodings x leading zeros x leading junk x NUL/LF position, letter and hex-digit case symbolic, free tail)" % ND,
                     {"decoder_free_bytes": ND, "templates": len(jobs)})
@@ -356,6 +391,17 @@ def c07(tier, seed):
     for w in range(4):
         jobs += wjobs("HSpecClass", NC, extra=[w], partition=XSS_PARTS, split_from=6)
     c.run_group("U-classifiers", SPECXSS, jobs, expect_labels=["checked"])
+    jobs = []
+    step = 6 if tier == "quick" else 1
+    for i in range(seed % step, NEVENTS, step):
+        jobs.append(job("HSpecNameT", [0, i, (i + seed) % 5], witness_every=8, max_witness=1))
+    for i in range(NBLACKS):
+        for ctx in ((i % 5,) if tier == "quick" else range(5)):
+            jobs.append(job("HSpecNameT", [1, i, ctx], witness_every=8, max_witness=1))
+    for i in range(NTAGS):
+        for ctx in ((i % 5,) if tier == "quick" else range(5)):
+            jobs.append(job("HSpecNameT", [2, i, ctx], witness_every=8, max_witness=1))
+    c.run_group("T-names", SPECXSS + H("gen_vocab.go", "h_xss_tpl.go", "h_spec_xss_tpl.go"), jobs, expect_labels=["checked"])
     c.assumptions.append("text that reaches a Unicode case-folding call is ASCII (other paths are closed as excluded and counted)")
     return c.finish("model_checking", "implementation vs independently written reference (spec/h5tok.go): token streams from the 5 start contexts (inputs <= %d), from each of the 22 states at offsets 0/1 (inputs <= %d), context verdicts (inputs <= %d), IsXSS (inputs <= %d), classifiers on free strings <= %d" % (NW + 1, NS, NW, NX, NC),
                     {"W_free_bytes": NW, "state_free_bytes": NS, "classifier_free_bytes": NC, "api_free_bytes": NX})
@@ -368,11 +414,12 @@ NTAGS, NEVENTS, NBLACKS = 22, 319, 20
 def attr_shapes(tier, idx, ctx):
     """(sep, eq, q, end, nul) shapes for one attribute vector; sep 2 (no separator) only after a closing quote"""
     base = [(0, 0, 0, 0, 0)]
-    extra = [(1, 3, 1, 1, 0), (2, 1, 2, 0, 0), (3, 2, 3, 1, 2), (0, 0, 0, 1, 1), (1, 0, 2, 0, 3), (2, 3, 0, 1, 0), (0, 2, 1, 0, 4), (3, 1, 3, 0, 0)]
+    extra = [(1, 3, 1, 1, 0), (2, 1, 2, 0, 0), (3, 2, 3, 1, 2), (0, 0, 0, 1, 1), (1, 0, 2, 0, 3), (2, 3, 0, 1, 0), (0, 2, 1, 0, 4), (3, 1, 3, 0, 0),
+             (4, 0, 0, 0, 0), (5, 3, 1, 0, 0), (6, 0, 2, 1, 0), (7, 1, 0, 0, 0), (8, 0, 3, 0, 2), (9, 2, 0, 1, 0)]
     if tier == "quick":
-        shapes = base + [extra[idx % len(extra)]]
+        shapes = base + [extra[idx % len(extra)], extra[(idx * 5 + ctx + 8) % len(extra)]]
     else:
-        shapes = base + extra + [(s, e, q, 0, 0) for s in range(4) for e in (0, 3) for q in range(4)]
+        shapes = base + extra + [(s, e, q, 0, 0) for s in range(10) for e in (0, 3) for q in range(4)]
     out = []
     for (sep, eq, q, end, nul) in shapes:
         if sep == 2 and ctx < 2:
@@ -413,6 +460,16 @@ def c04(tier, seed):
             for tail in ((0, 1) if tier == "quick" else (0, 1, 2, 3)):
                 jobs.append(job("HXssMarkupT", [w, ctx, tail], safety=True, witness_every=2))
     c.run_group("T-markup", XSST, jobs, expect_labels=["checked"])
+    # URL schemes through character references / leading junk / embedded NUL-LF (the harness of C19, a slice of its shapes)
+    jobs = []
+    names = ["javascript:", "vbscript:", "data:", "view-source:"]
+    for sch in range(4):
+        for form in ((1, 2, 4) if tier == "quick" else (1, 2, 3, 4)):
+            jobs.append(job("HUrl", [sch, form, 0, 0, 0 if tier == "quick" else 2, 1, -1, 1], witness_every=3))
+        for pos in range(0, len(names[sch]), 3 if tier == "quick" else 1):
+            jobs.append(job("HUrl", [sch, 0, 2, 1 << pos, 1, 0, -1, 1], witness_every=3))
+            jobs.append(job("HUrl", [sch, 0, 0, 0, 0, 1, pos, 0], witness_every=3))
+    c.run_group("T-url-encodings", URL, jobs, expect_labels=["checked"])
     return c.finish("model_checking", "every baseline black element (22), event handler (319), black attribute (20), xmlns/xlink, and 8 markup forms, in each of the 5 injection contexts, with symbolic letter case, separator and whitespace bytes, value byte, and NUL position; shapes (separator x '=' spacing x quoting x end x NUL) enumerated: %s" % ("base + one rotating shape per name" if tier == "quick" else "base + 8 mixed + separator x spacing x quoting grid"),
                     {"vectors": "baseline vocabulary x contexts x shapes", "tier_shapes": tier})
 
@@ -440,6 +497,8 @@ def c05(tier, seed):
             for o in v.get("obs") or []:
                 if o[0] == "input":
                     hexin = o[1]
+            if sum(1 for x in race_log if x["race_detected"]) >= 2 or len(race_log) >= 4:
+                return None
             got, out = c.nat.race(hexin)
             race_log.append({"input": v["text"], "race_detected": got})
             return got
@@ -459,6 +518,8 @@ def c05(tier, seed):
     for w in range(6):
         for n in range(0, 3 if tier == "quick" else 4):
             jobs.append(job("HHistXssT", [w, n], safety=True, witness_every=50))
+        for n in range(0, 2 if tier == "quick" else 3):
+            jobs.append(job("HHistSqliT", [w, n], safety=True, witness_every=50))
     c.run_group("history", C5, jobs, expect_labels=["checked"])
     # (3) audit of the encoder's precondition over the whole package (flow-insensitive; not the deciding step)
     ensure_engine()
@@ -494,18 +555,20 @@ def c09(tier, seed):
             if "unit" not in obs:
                 return False
             api = "sqli" if (r["entry"] == "HRepeatSqli" or (r["entry"] == "HRepeatFree" and r["args"][2] == 0)) else "xss"
+            if sum(1 for t in timing_log if t["native"].get("ratio", 0) >= 7.0) >= 2 or len(timing_log) >= 6:
+                return None  # at most a few native timing runs per check (each runs the quadratic input at 64 kB+)
             t = c.nat.timing(obs.get("pre", ""), obs["unit"], api)
             timing_log.append({"entry": r["entry"], "args": r["args"], "input": v["text"], "native": t})
             return t.get("ratio", 0) >= 7.0
         return engine_to_native_ok(v, nat_res)
 
     jobs = []
-    for u in range(35):
-        for pre in ((0, 1) if tier == "quick" else (0, 1, 2, 3)):
+    for u in range(39):
+        for pre in ((0, 1, 4) if tier == "quick" else (0, 1, 2, 3, 4, 5, 6)):
             for holes in (0, 1):
                 jobs.append(job("HRepeatSqli", [u, holes, K, pre, PB, SL], safety=True, witness_every=50, max_witness=1))
-    for u in range(33):
-        for pre in ((0, 1) if tier == "quick" else (0, 1, 2, 3)):
+    for u in range(37):
+        for pre in ((0, 1, 4) if tier == "quick" else (0, 1, 2, 3, 4, 5, 6)):
             for holes in (0, 1):
                 jobs.append(job("HRepeatXss", [u, holes, K, pre, PB, SL], safety=True, witness_every=50, max_witness=1))
     c.run_group("T-families", COST, jobs, expect_labels=["checked"], confirm=confirm)
@@ -536,7 +599,7 @@ def c09(tier, seed):
 
 
 SQLT = BASE + H("h_sqli.go", "h_sql_tpl.go")
-NCTX, NATK, NTAIL, NSEP = 10, 48, 9, 4
+NCTX, NATK, NTAIL, NSEP = 10, 52, 9, 4
 GRAMMAR = os.path.join(VERIF, "grammar", "sqli.json")
 
 
@@ -589,7 +652,7 @@ def c14(tier, seed):
     K = 4 if tier == "quick" else 5
     for k in range(1, K + 1):
         for mask in range(1 << k):
-            for wl, nl in (((3, 2),) if tier == "quick" else ((2, 1), (3, 2), (4, 3))):
+            for wl, nl in (((3, 2), (2, 1)) if tier == "quick" else ((2, 1), (3, 2), (4, 3))):
                 if k >= 4 and bin(mask).count("0") - (len(bin(mask)) - 2 - k) > 3 and tier == "quick":
                     pass
                 jobs.append(job("HBenign", [k, mask, wl, nl], safety=True, witness_every=200, max_witness=1))
@@ -654,7 +717,18 @@ def c11(tier, seed):
         jobs.append(job("HNameInvT", [1, i], witness_every=5, max_witness=1))
     for i in range(NTAGS):
         jobs.append(job("HNameInvT", [2, i], witness_every=5, max_witness=1))
-    c.run_group("T-names", XSST + H("h_xss_inv.go"), jobs, expect_labels=["checked"])
+    c.run_group("T-names", XSST + H("h_xss_inv.go", "h_url.go") + S("entity.go", "strlit.go"), jobs, expect_labels=["checked"])
+    jobs = []
+    names = ["javascript:", "vbscript:", "data:", "view-source:"]
+    for sch in range(4):
+        L = len(names[sch])
+        for form in (3, 4):
+            jobs.append(job("HUrlCaseT", [sch, 3, (1 << L) - 1], witness_every=3, max_witness=1))
+            for pos in range(0, L, 2 if tier == "quick" else 1):
+                if form == 4 and pos + 1 < L and names[sch][pos + 1] in "abcdefABCDEF0123456789":
+                    continue
+                jobs.append(job("HUrlCaseT", [sch, form, 1 << pos], witness_every=3, max_witness=1))
+    c.run_group("T-url-case", XSST + H("h_xss_inv.go", "h_url.go") + S("entity.go", "strlit.go"), jobs, expect_labels=["checked"])
     c.assumptions.append("text reaching Unicode case folding is ASCII (other paths are closed as excluded and counted)")
     return c.finish("model_checking", "IsXSS(s) = IsXSS(flip(s)) for inputs <= %d, per context <= %d; NUL inserted strictly inside a name token of (s, ctx) for inputs <= %d; classifiers under NUL insertion / case flips for names <= %d; every baseline name under case re-assignment and NUL insertion at every interior position" % (NW, NC, NN, NB),
                     {"W_free_bytes": NW, "ctx_free_bytes": NC, "nul_free_bytes": NN, "classifier_free_bytes": NB})
